@@ -20,6 +20,29 @@ Theorem discipline_sound :
 Proof. exact discipline_sound_l. Qed.
 Print Assumptions discipline_sound.
 
+(* Start-up (samlidp.New -> initializeServices, InitializeHTTP) is checked on the
+   program with the accesses removed (obligation samlidp_startup_ok, re-proved on
+   every run): accepted start-up code never blocks on itself, for every schedule —
+   in particular a lock taken in the start-up loop is released in the same
+   iteration, so New returns over a store holding any number of services. *)
+Theorem startup_sound :
+  forall p starts, startup_ok p starts = true ->
+  forall (threads : list (list fname)) codes,
+    (forall invs f, In invs threads -> In f invs -> In f starts) ->
+    expand_threads (strip_program p) threads = Some codes ->
+    forall schedule, deadlock_free (run (init codes) schedule).
+Proof. exact startup_sound_l. Qed.
+Print Assumptions startup_sound.
+
+Theorem loop_lock_rejected_and_selfdeadlocks :
+  startup_ok [("init", [Acq IdpConfigMu true; Wr ServiceProviders; Acq IdpConfigMu true; Wr ServiceProviders;
+                        Rel IdpConfigMu true; Rel IdpConfigMu true])] ["init"] = false /\
+  exists codes, expand_threads [("init", [Acq IdpConfigMu true; Acq IdpConfigMu true; Rel IdpConfigMu true; Rel IdpConfigMu true])]
+                               [["init"]] = Some codes /\
+                stuckb (run (init codes) [0%nat; 0%nat; 0%nat]) = true.
+Proof. exact loop_lock_selfdeadlock. Qed.
+Print Assumptions loop_lock_rejected_and_selfdeadlocks.
+
 (* In every reachable state a thread standing at a read of a guarded location
    holds its mutex, at a write holds it exclusively, and an exclusive holder is
    the only holder: conflicting critical sections of the store never overlap,
